@@ -35,6 +35,7 @@ fn main() {
                 let a = v["a"].as_array().cloned().unwrap_or_default();
                 let r = ops::exec(&op, &a);
                 writeln!(out, "{}", json!({"op": op, "a": proj::saturate(&Value::Array(a)), "r": r})).unwrap();
+                out.flush().unwrap(); // interactive use: one answer per request
             }
         }
         "daysweep" => sweeps::daysweep(&args[2..]),
